@@ -83,7 +83,7 @@ def run(ctx):
     res.rule = ("histories over <= 3 applications, unit modules 1..4: random walks of length 5..40 (init/stop, "
                 "subroutines biased to qalloc/qfree/classical writes, link-layer reservations, keep-responses), "
                 "every 4th through the QNodeController message handlers; exhaustive sequences over an 11-op alphabet "
-                "(2 apps, 2+1 qubits) to depth 3 (quick) / 4 (thorough); interleaved histories: 2-3 subroutines of "
+                "(2 apps, 2+1 qubits) to depth 2 plus 400 sampled depth-3 sequences (quick) / depth 4 (thorough); interleaved histories: 2-3 subroutines of "
                 "different applications in flight, resumed one instruction at a time in random order (and all "
                 "35 interleavings of two fixed subroutines), life-cycle operations in between; crash/abort histories "
                 "(a suspended subroutine dropped between instructions or at the yield inside qfree's reset hook, "
@@ -144,8 +144,14 @@ def run(ctx):
     depth = 4 if ctx.thorough else 3
     alpha = _alphabet()
     prologue = [{"k": "init", "a": 0, "n": 2}]
+    seqs = []
     for d in range(1, depth + 1):
-        for seq in itertools.product(range(len(alpha)), repeat=d):
+        full = list(itertools.product(range(len(alpha)), repeat=d))
+        if not ctx.thorough and d == depth:
+            full = rng.sample(full, 400)   # quick: depths 1-2 exhaustively, a sample of depth 3
+        seqs += full
+    for seq in seqs:
+        if True:
             ops = list(prologue)
             for i in seq:
                 o = alpha[i]
@@ -185,25 +191,25 @@ def run(ctx):
                 {"k": "spawn", "a": 0, "p": [["set", 2, 1, 1], ["qfree", 2, 1], ["set", 0, 0, 1]]},
                 {"k": "tick", "i": 0}, last, {"k": "stop", "a": 0}, {"k": "stop", "a": 1},
                 {"k": "init", "a": 0, "n": 2}, {"k": "sub", "a": 0, "fuel": 20, "or": [], "p": al}]}, "abort")
-    n_abort = 3500 if ctx.thorough else 400
+    n_abort = 3500 if ctx.thorough else 250
     for k in range(n_abort):
         check(H.abort_scenario(rng, rng.choice([10, 20, 40])), "abort")
         if len(res.failures) >= 5 or len(res.disagreements) >= 5:
             return res
     # several executors in one process
-    n_multi = 2000 if ctx.thorough else 250
+    n_multi = 2000 if ctx.thorough else 150
     for k in range(n_multi):
         check(H.multi_scenario(rng, rng.choice([15, 30, 60])), "multi-executor")
         if len(res.failures) >= 5 or len(res.disagreements) >= 5:
             return res
 
-    n_par = 6000 if ctx.thorough else 500
+    n_par = 6000 if ctx.thorough else 300
     for k in range(n_par):
         check(H.par_scenario(rng, rng.choice([10, 20, 40])), "interleaved")
         if len(res.failures) >= 5 or len(res.disagreements) >= 5:
             return res
 
-    n_walks = 9000 if ctx.thorough else 600
+    n_walks = 9000 if ctx.thorough else 400
     for k in range(n_walks):
         msg = k % 4 == 3
         g = H.Gen(rng, encodable=msg)
